@@ -1,4 +1,5 @@
 import abc
+import re
 
 from stone._vendor.ply import lex, yacc
 
@@ -81,7 +82,11 @@ class FilterExprLexer:
 
     def t_STRING(self, token):
         r'\"([^\\"]|(\\.))*\"'
-        token.value = token.value[1:-1]
+        # Same escape sequences as string literals in specs.
+        token.value = re.sub(
+            r'\\(.)',
+            lambda m: {'n': '\n', 't': '\t'}.get(m.group(1), m.group(1)),
+            token.value[1:-1])
         return token
 
     def t_ID(self, token):
@@ -213,10 +218,14 @@ class FilterExprPredicate:
 
     def eval(self, route):
         val = route.attrs.get(self.lhs, None)
+        # Literals are typed: in Python True == 1 and False == 0, but a boolean
+        # attribute never equals a number literal (and vice versa).
+        equal = (isinstance(val, bool) == isinstance(self.rhs, bool) and
+                 val == self.rhs)
         if self.op == '=':
-            return val == self.rhs
+            return equal
         elif self.op == '!=':
-            return val != self.rhs
+            return not equal
         else:
             assert False
 
